@@ -20,7 +20,8 @@ Local Open Scope Z_scope.
    evictions (inside every operation that loads an entry), TTL/TTI passes, aggressive passes,
    policy passes, forced deletes — with any clock, capacity, configuration, disk usage, listing
    and walk order — as long as no operation of the history ends n's protection on purpose
-   (SetPersist n false, ClearPersist n, or a forced delete of n whose write-back succeeded). *)
+   (SetPersist n false, ClearPersist n, or a forced delete of n in which a pending write-back task
+   executed, or none was pending: `unprotects`). *)
 Theorem C10_persisted_never_removed : forall ops s n f,
   aget n (dk s) = Some f -> is_persisted f = true ->
   (forall o, In o ops -> unprotects o n = false) ->
@@ -60,11 +61,12 @@ Theorem C10_policy_pass_keeps_protected : forall s n f thr total scan order,
 Proof. exact Proof.C10.policy_pass_stmt. Qed.
 Print Assumptions C10_policy_pass_keeps_protected.
 
-(* ... by forced cleanup (maybeDelete) unless every pending write-back ran to completion first *)
-Theorem C10_forced_cleanup_needs_writeback : forall s n f ttl owns,
+(* ... by forced cleanup (maybeDelete) when the first pending write-back task fails: nothing is
+   deleted and the flag stays (a task that succeeds removes the flag itself, executor.go:93) *)
+Theorem C10_forced_cleanup_needs_writeback : forall s n f ttl owns t,
   aget n (dk s) = Some f -> is_persisted f = true ->
-  stays n f (fst (force_delete n ttl owns false s))
-  /\ snd (force_delete n ttl owns false s) <> ODel true false.
+  stays n f (fst (force_delete n ttl owns (false :: t) s))
+  /\ snd (force_delete n ttl owns (false :: t) s) <> ODel true false.
 Proof. exact Proof.C10.force_delete_stmt. Qed.
 Print Assumptions C10_forced_cleanup_needs_writeback.
 
@@ -169,7 +171,7 @@ Example C10_nonvacuous_protected :
               TtlPass 3600000000000 3600000000000 50 (Some (mku 95 1000 900)) [0; 1; 2]%N;
               Create 3 10 7200000001000; SetLat 3 7000;
               PolicyPass 0 (Some 1000) [0; 3]%N [3; 0]%N;
-              Delete 0; ForceDelete 0 0 true false] in
+              Delete 0; ForceDelete 0 0 true [false; true]] in
   let s := fst (run (init 2 1000) ops) in
   (forallb (fun o => negb (unprotects o 0%N)) ops, keys (dk s), persisted 0%N (dk s))
   = (true, [0%N], true).
